@@ -18,7 +18,7 @@ import re
 import time
 import traceback
 
-BASE = ('@charset "utf-8";\n/*c1*/\n@import "x.css" tv "nm";\n@namespace p "http://u";\n'
+BASE = ('@charset "utf-8";\n/*c1*/\n@import "x.css" tv "nm";\n@namespace p "http://u";\n@namespace q "http://v";\n'
         '@media print and (min-width: 10px), tv { a { left: 1px } @page { margin: 0 } }\n'
         '@page :first { margin: 1cm; @top-left { content: "x" } }\n'
         '@font-face { font-family: "F"; src: url(f.ttf) }\n@unknown x y;\n'
@@ -32,50 +32,57 @@ def fetcher(url):
     return None, b"i{top:0}"
 
 
+def _r(s, clsname, n=0):
+    return [r for r in s.cssRules if type(r).__name__ == clsname][n]
+
+
 def _prop(s, name):
-    return [p for p in s.cssRules[9].style.getProperties(all=True) if p.name == name][0]
+    return [p for p in _r(s, "CSSStyleRule").style.getProperties(all=True) if p.name == name][0]
 
 
 # kind -> (how to reach the object in a fresh BASE sheet, {attr: [valid texts]})
 KINDS = {
-    "sheet": (lambda s: s, {"cssText": ["a{x:1}", "@import 'x.css'; b{y:2}", "@media tv{a{x:1}}"]}),
-    "charset": (lambda s: s.cssRules[0], {"cssText": ['@charset "ascii";'], "encoding": ["ascii", "latin-1"]}),
-    "comment": (lambda s: s.cssRules[1], {"cssText": ["/*x*/"]}),
-    "import": (lambda s: s.cssRules[2], {"cssText": ['@import "y.css";', '@import url(y.css) print "n";'],
+    "sheet": (lambda s: s, {"cssText": ["a{x:1}", "@import 'x.css'; b{y:2}", "@media tv{a{x:1}}", '@charset "ascii"; a{x:1}'],
+                            "encoding": ["ascii", "latin-1"]}),
+    "charset": (lambda s: _r(s, "CSSCharsetRule"), {"cssText": ['@charset "ascii";'], "encoding": ["ascii", "latin-1"]}),
+    "comment": (lambda s: _r(s, "CSSComment"), {"cssText": ["/*x*/"]}),
+    "import": (lambda s: _r(s, "CSSImportRule"), {"cssText": ['@import "y.css";', '@import url(y.css) print "n";'],
                                          "href": ["y.css"], "media": ["print", "tv, print"], "name": ["n2"]}),
-    "namespace": (lambda s: s.cssRules[3], {"cssText": ['@namespace p "http://u";', '@namespace q "http://u";'],
+    "namespace": (lambda s: _r(s, "CSSNamespaceRule"), {"cssText": ['@namespace p "http://u";', '@namespace q "http://u";'],
                                             "prefix": ["q"], "namespaceURI": ["http://u"]}),
-    "media": (lambda s: s.cssRules[4], {"cssText": ["@media tv {b{y:2}}", '@media print "n" {b{y:2} @page{margin:0} /*c*/}',
+    "namespace2": (lambda s: _r(s, "CSSNamespaceRule", 1), {"cssText": ['@namespace q "http://v";'], "prefix": ["r"],
+                                                             "namespaceURI": ["http://v"]}),
+    "media": (lambda s: _r(s, "CSSMediaRule"), {"cssText": ["@media tv {b{y:2}}", '@media print "n" {b{y:2} @page{margin:0} /*c*/}',
                                                     "@media screen and (color) {b{y:2} @media tv {c{z:1}}}"],
                                         "media": ["tv", "print, tv"], "name": ["n"]}),
-    "medialist": (lambda s: s.cssRules[4].media, {"mediaText": ["tv", "print, tv", "screen and (color)", "all"]}),
-    "mediaquery": (lambda s: s.cssRules[4].media[0], {"mediaText": ["tv", "screen and (color)", "not print"],
+    "medialist": (lambda s: _r(s, "CSSMediaRule").media, {"mediaText": ["tv", "print, tv", "screen and (color)", "all"]}),
+    "mediaquery": (lambda s: _r(s, "CSSMediaRule").media[0], {"mediaText": ["tv", "screen and (color)", "not print"],
                                                       "mediaType": ["tv"]}),
-    "nestedstyle": (lambda s: s.cssRules[4].cssRules[0], {"cssText": ["b{y:2}"], "selectorText": ["b, c"],
+    "nestedstyle": (lambda s: _r(s, "CSSMediaRule").cssRules[0], {"cssText": ["b{y:2}"], "selectorText": ["b, c"],
                                                           "style": ["y:2"]}),
-    "page": (lambda s: s.cssRules[5], {"cssText": ["@page :left {margin:0}", "@page x:first {margin:0; @top-right{y:1}}"],
+    "page": (lambda s: _r(s, "CSSPageRule"), {"cssText": ["@page :left {margin:0}", "@page x:first {margin:0; @top-right{y:1}}"],
                                        "selectorText": [":left", "x:first", ""], "style": ["margin:0"]}),
-    "margin": (lambda s: s.cssRules[5].cssRules[0], {"cssText": ["@top-right{y:1}", "@bottom-left { y:1; z:2 }"],
+    "margin": (lambda s: _r(s, "CSSPageRule").cssRules[0], {"cssText": ["@top-right{y:1}", "@bottom-left { y:1; z:2 }"],
                                                      "margin": ["@top-right"], "style": ["y:1"]}),
-    "fontface": (lambda s: s.cssRules[6], {"cssText": ['@font-face{font-family:"G";src:url(g.ttf)}'], "style": ['font-family:"G"']}),
-    "unknown": (lambda s: s.cssRules[7], {"cssText": ["@unknown z;", "@unknown {a(b)[c]}"]}),
-    "style": (lambda s: s.cssRules[8], {"cssText": ["b{y:2}", "p|b, c > d {y:2;z:3 !important}"],
+    "fontface": (lambda s: _r(s, "CSSFontFaceRule"), {"cssText": ['@font-face{font-family:"G";src:url(g.ttf)}'], "style": ['font-family:"G"']}),
+    "unknown": (lambda s: _r(s, "CSSUnknownRule"), {"cssText": ["@unknown z;", "@unknown {a(b)[c]}"]}),
+    "style": (lambda s: _r(s, "CSSStyleRule"), {"cssText": ["b{y:2}", "p|b, c > d {y:2;z:3 !important}"],
                                         "selectorText": ["b", "p|b, c:not(.d)", "a[b=c]::after"], "style": ["y:2; z:3"]}),
-    "selectorlist": (lambda s: s.cssRules[8].selectorList, {"selectorText": ["b", "p|b, c > d", "a, b, c"]}),
-    "selector": (lambda s: s.cssRules[8].selectorList[0], {"selectorText": ["b", "p|b", "c > d:hover", "*|e", "a[b|=c]"]}),
-    "decl": (lambda s: s.cssRules[8].style, {"cssText": ["y:2", "y:2; z:3 !important; /*c*/"]}),
-    "property": (lambda s: s.cssRules[8].style.getProperties()[0],
+    "selectorlist": (lambda s: _r(s, "CSSStyleRule").selectorList, {"selectorText": ["b", "p|b, c > d", "a, b, c"]}),
+    "selector": (lambda s: _r(s, "CSSStyleRule").selectorList[0], {"selectorText": ["b", "p|b", "c > d:hover", "*|e", "a[b|=c]"]}),
+    "decl": (lambda s: _r(s, "CSSStyleRule").style, {"cssText": ["y:2", "y:2; z:3 !important; /*c*/"]}),
+    "property": (lambda s: _r(s, "CSSStyleRule").style.getProperties()[0],
                  {"cssText": ["y: 2", "color: blue !important"], "name": ["top", "y"], "value": ["blue", "1px 2px"],
                   "priority": ["", "!important", "important"], "propertyValue": ["blue"], "cssValue": ["blue"]}),
-    "propertyvalue": (lambda s: s.cssRules[8].style.getProperties()[1].propertyValue,
+    "propertyvalue": (lambda s: _r(s, "CSSStyleRule").style.getProperties()[1].propertyValue,
                       {"cssText": ["1px", "url(a) red, rgb(1,2,3)", "calc(1px + 2px) f(1)"]}),
-    "value_ident": (lambda s: s.cssRules[8].style.getProperties()[1].propertyValue[1], {"cssText": ["repeat", '"s"'], "value": ["x"]}),
-    "value_uri": (lambda s: s.cssRules[8].style.getProperties()[1].propertyValue[0], {"cssText": ["url(b.png)"], "uri": ["b.png"]}),
-    "value_color": (lambda s: s.cssRules[8].style.getProperties()[1].propertyValue[2],
+    "value_ident": (lambda s: _r(s, "CSSStyleRule").style.getProperties()[1].propertyValue[1], {"cssText": ["repeat", '"s"'], "value": ["x"]}),
+    "value_uri": (lambda s: _r(s, "CSSStyleRule").style.getProperties()[1].propertyValue[0], {"cssText": ["url(b.png)"], "uri": ["b.png"]}),
+    "value_color": (lambda s: _r(s, "CSSStyleRule").style.getProperties()[1].propertyValue[2],
                     {"cssText": ["rgb(3,2,1)", "#fff", "hsl(1,2%,3%)", "rgba(1,2,3,0.5)", "red"]}),
-    "value_calc": (lambda s: s.cssRules[8].style.getProperties()[2].propertyValue[0], {"cssText": ["calc(2px + 3px)"]}),
-    "value_dim": (lambda s: s.cssRules[8].style.getProperties()[3].propertyValue[0], {"cssText": ["2px", "-1.5em", "3%", "4"]}),
-    "value_func": (lambda s: s.cssRules[8].style.getProperties()[4].propertyValue[0], {"cssText": ["g(2)", "g(a, b)"]}),
+    "value_calc": (lambda s: _r(s, "CSSStyleRule").style.getProperties()[2].propertyValue[0], {"cssText": ["calc(2px + 3px)"]}),
+    "value_dim": (lambda s: _r(s, "CSSStyleRule").style.getProperties()[3].propertyValue[0], {"cssText": ["2px", "-1.5em", "3%", "4"]}),
+    "value_func": (lambda s: _r(s, "CSSStyleRule").style.getProperties()[4].propertyValue[0], {"cssText": ["g(2)", "g(a, b)"]}),
 }
 # detached objects (no owner sheet)
 DETACHED = {
@@ -95,9 +102,51 @@ DETACHED = {
     "d_nsrule": ("css_parser.css.CSSNamespaceRule", ("http://u", "p"), {}, {"cssText": ['@namespace p "http://u";'], "prefix": ["q"]}),
     "d_mediarule": ("css_parser.css.CSSMediaRule", ("print",), {}, {"cssText": ["@media tv {b{y:2}}"], "media": ["tv"]}),
 }
+TEXT_ATTRS = {"cssText", "selectorText", "mediaText", "style"}
 JUNK = [";", "}", "{", "!", "@x", "(", ")", ",", "/*c*/", " junk", '"', "\\", ":", "|", "zz|q", '@import "bad.css";',
         "@media", " and ", "not(", "1px", "#", "url(", "[", "]", "!important", "!foo", "*", ">", "@charset \"a\";", "\n", "%",
         "@top-left{", "rgb(1,2)", "@namespace q \"http://other\";"]
+# values that are not texts (decoded by pyvalue just before the assignment)
+PYVALUES = {
+    "\u00abNone\u00bb": lambda: None, "\u00ab0\u00bb": lambda: 0, "\u00ab1.5\u00bb": lambda: 1.5, "\u00abTrue\u00bb": lambda: True,
+    "\u00ab[]\u00bb": lambda: [], "\u00ab['x']\u00bb": lambda: ["x"], "\u00ab()\u00bb": lambda: (), "\u00abb'x'\u00bb": lambda: b"x",
+    "\u00abMediaList\u00bb": lambda: __import__("css_parser").stylesheets.MediaList("tv"),
+    "\u00abbad MediaList\u00bb": lambda: __import__("css_parser").stylesheets.MediaList(),
+    "\u00abCSSStyleDeclaration\u00bb": lambda: __import__("css_parser").css.CSSStyleDeclaration("y:2"),
+    "\u00abSelectorList\u00bb": lambda: __import__("css_parser").css.SelectorList("b"),
+}
+# names and values that pass a setter's first (syntactic) check and may fail a later (semantic) one
+SEMANTIC = [
+    # at-keywords, also spelled with case / escapes
+    "@import", "@IMPORT", "@\\69mport", "@media", "@page", "@namespace", "@charset", "@font-face", "@top-left",
+    "@bottom-right-corner", "@TOP-LEFT", "@x", "@unknown", "@\\75nknown",
+    # identifiers: declared / undeclared / reserved words of the sub-grammars
+    "p", "q", "r", "zz", "P", "auto", "first", "left", "all", "tv", "print", "foo", "only", "not", "and", "inherit", "\\70",
+    # priorities
+    "!important", "! important", "!IMPORTANT", "!/*c*/important", "important", "IMPORTANT", "!foo", "!import\\61nt",
+    # urls / uris: loadable, not loadable, with a broken sheet behind, malformed
+    "x.css", "bad.css", "http://e.com/bad.css", "//[", "a b", "http://u", "http://v", "http://other", "HTTP://U",
+    # encodings incl. codecs that are no text encodings
+    "utf-8", "UTF-8", "latin_1", "hex", "HEX", "rot13", "base64", "undefined", "idna", "css", "punycode", "utf-16", "utf-9",
+]
+
+
+def codec_names(thorough):
+    """every codec name the interpreter knows (modules of the encodings package, aliases in the thorough tier)"""
+    import encodings
+    import encodings.aliases
+    import pkgutil
+    names = sorted(m.name for m in pkgutil.iter_modules(encodings.__path__) if not m.name.startswith("_") and m.name != "aliases")
+    out = list(names) + [n.upper() for n in names[::4]]
+    if thorough:
+        out += [n.upper() for n in names] + [n.replace("_", "-") for n in names if "_" in n] + sorted(encodings.aliases.aliases)
+    return out
+
+
+def pyvalue(text):
+    return PYVALUES[text]() if text in PYVALUES else text
+
+
 SKIP_KEYS = {"_parent", "_parentRule", "_parentStyleSheet", "parent", "_ownerRule", "_ownerNode", "_log", "_prods",
              "_fetcher", "_readonly", "_Property__nametoken", "_parentMediaList"}
 
@@ -117,11 +166,23 @@ def tokens_of(text):
 def mutations(text, rng, nrand):
     """invalid-ish texts from a valid one: truncation, token deletion/insertion, trailing content"""
     out = []
-    for i in range(len(text)):
+    step = 1 if (nrand > 20 or len(text) <= 16) else 2        # quick tier: every second cut of a long text
+    for i in range(0, len(text), step):
         out.append(text[:i])
     toks = tokens_of(text)
     for i in range(len(toks)):
         out.append("".join(toks[:i] + toks[i + 1:]))
+    # respellings that CSS treats as the same text: case of keywords/identifiers, escaped characters
+    for i, tk in enumerate(toks):
+        if tk[:1].isalpha() or (tk[:1] == "@" and len(tk) > 1) or tk[:1] == "-":
+            k = 1 if tk[0] in "@-" and len(tk) > 1 else 0
+            esc = "\\%x " % ord(tk[k])
+            out.append("".join(toks[:i] + [tk[:k] + esc + tk[k + 1:]] + toks[i + 1:]))
+            out.append("".join(toks[:i] + [tk.upper()] + toks[i + 1:]))
+            if len(tk) > k + 2:
+                m = k + 1 + (i % (len(tk) - k - 1))
+                out.append("".join(toks[:i] + [tk[:m] + "\\" + ("%x " % ord(tk[m]) if tk[m] in "0123456789abcdefABCDEF" else tk[m])
+                                               + tk[m + 1:]] + toks[i + 1:]))
     for j in JUNK:
         out.append(text + j)
         out.append(text + " " + j)
@@ -157,6 +218,18 @@ def gen_cases(ctx, thorough):
                           "@media tv {a{x:1} b{color}}", "@top-right{y:1;!}", "y: ;", "/*c*/", ",", "print,",
                           '@import "bad.css";', '@import "bad.css" tv;', "bad.css", "!foo", "rgb(1,2)", "1px }",
                           '@namespace q "http://other";', "@page :first {margin:0} x", "@page {@top-left{x:1;!}}"])
+            if attr not in TEXT_ATTRS:
+                # values that pass the first check and may fail a later one
+                texts.update(SEMANTIC)
+                texts.update(PYVALUES)
+            else:
+                texts.update(SEMANTIC[::3])
+                texts.update(list(PYVALUES)[:4])
+            if attr == "encoding":
+                texts.update(codec_names(thorough))
+            if kind in ("charset", "sheet") and attr == "cssText":
+                texts.update('@charset "%s";%s' % (n, " a{x:1}" if kind == "sheet" else "")
+                             for n in codec_names(thorough)[::1 if (thorough or kind == "charset") else 3])
             for t in sorted(texts):
                 cases.append((kind, attr, t, 0))
             # readonly objects: every assignment must be rejected and change nothing
@@ -215,6 +288,10 @@ def public_fp(sheet, obj, attrs):
             fp["sheet.cssText"] = sheet.cssText
         except Exception as e:  # noqa -- a sheet that can no longer be serialised has certainly changed
             fp["sheet.cssText"] = "<%s: %s>" % (type(e).__name__, e)
+        try:
+            fp["sheet.encoding"] = sheet.encoding
+        except Exception as e:  # noqa
+            fp["sheet.encoding"] = "<%s>" % type(e).__name__
     names = set(attrs) | {"wellformed", "valid", "cssText", "selectorText", "mediaText", "specificity", "length", "element"}
     for k in type(obj).__mro__:
         for n, d in vars(k).items():
@@ -317,7 +394,7 @@ def lenient_pair(kind, attr, text, attrs):
             cnt.n, cnt.own, cnt.obj = 0, [], obj
             exc = ""
             try:
-                setattr(obj, attr, text)
+                setattr(obj, attr, pyvalue(text))
             except xml.dom.DOMException as e:
                 exc = type(e).__name__
             except Exception as e:  # noqa
@@ -396,7 +473,7 @@ def run_case_(case):
         pub0, deep0 = public_fp(sheet, obj, attrs), deep_fields(obj)
         raised, exc, where, msg = 0, "", "", ""
         try:
-            setattr(obj, attr, text)
+            setattr(obj, attr, pyvalue(text))
         except xml.dom.DOMException as e:
             raised, exc, msg = 1, type(e).__name__, str(e)[:120]
             fr = [f.name for f in traceback.extract_tb(e.__traceback__) if "css_parser" in f.filename]
